@@ -135,6 +135,8 @@ def extra_names(rng, model: sites.SiteModel) -> None:
     dirs = set()
     for n in ["wapiti.txt", "GEMINI-QUERYx.txt", "URLs.txt", "a|b.txt", "c?d.txt", "100% sure.txt", "x&y=z.txt",
               "semi;colon.txt", "quote\"d.txt", "tick'd.txt", "<angle>.txt", "hash#tag.txt", "plus+plus.txt",
+              "archive;2019/old-x.txt", "archive/new-a.txt", "report.txt;1", "report.txt", "a+b dir/plus.txt", "a b dir/blank.txt",
+              "q=1&r=2/amp.txt", "it's (here), really!/x.txt", "$cash*star/y.txt",
               "a b 12", "back\\slash.txt", "tilde~.txt", "colon:name.txt", "@at.txt", "sub dir/in ner.txt",
               "wapdir/inner.txt", "café d/été.txt", "wap/notes.txt", "wap/phones/list.txt", "sale%20off.txt", "a%41.txt",
               "pct%2Fdir/50%25.txt", "form\x0cfeed.txt", "vt\x0btab.txt", "fs\x1csep.txt", "nel\u0085next.txt", "ls\u2028sep.txt",
